@@ -2,7 +2,10 @@
 (* Declarative meaning of LogQL metric queries (C09 - C13).
    Anchors: internal/logql/logqlengine/{sampler,aggregated_labels}.go, logqlmetric/*.go.
    Time: whole seconds for evaluation times, ranges, offsets and steps; record timestamps are <<s, ns>>.
-   Numbers: [k |-> "rat", n, d] exact rationals, or the tags "nan", "pinf", "ninf".
+   Numbers: [k |-> "rat", n, d] exact rationals, [k |-> "irat", n, d] rationals the implementation's binary floating
+   point holds only up to rounding (their value is compared with a tolerance, and whatever is discontinuous at them -
+   an equality, an ordering of equal values, a modulus whose quotient is whole - is left open), or the tags "nan",
+   "pinf", "ninf", "open".
    A vector is a set of [L |-> label set, v |-> number] with distinct L.
    Expressions:
      [t |-> "range", op, sel, stages, range, offset, unwrap |-> [on, label, conv], param |-> <<n, d>>, grp]
@@ -11,11 +14,16 @@
      grp = [mode |-> "none" | "by" | "without", labels |-> <<names>>] *)
 EXTENDS Pipeline
 
-RatV(n, d) == LET r == Norm(n, d) IN [k |-> "rat", n |-> r.n, d |-> r.d]
+\* a rational is held exactly by a binary float iff its denominator is a power of two (magnitudes are small here)
+Dyadic(d) == d \in {1, 2, 4, 8, 16, 32, 64, 128, 256, 512, 1024, 2048, 4096, 8192, 16384}
+FromR(r) == [k |-> IF Dyadic(r.d) THEN "rat" ELSE "irat", n |-> r.n, d |-> r.d]
+RatV(n, d) == FromR(Norm(n, d))
 NaNV == [k |-> "nan", n |-> 0, d |-> 1]
-IsRat(x) == x.k = "rat"
+IsRat(x) == x.k \in {"rat", "irat"}
+Inexact(x) == x.k = "irat"
+Approx(v) == IF v.k = "rat" THEN [v EXCEPT !.k = "irat"] ELSE v
+MarkIf(c, v) == IF c THEN Approx(v) ELSE v
 R(x) == [n |-> x.n, d |-> x.d]
-FromR(r) == [k |-> "rat", n |-> r.n, d |-> r.d]
 Zero == RatV(0, 1)
 One == RatV(1, 1)
 
@@ -44,17 +52,23 @@ Arith(op, x, y) ==
   ELSE IF ~IsRat(x) \/ ~IsRat(y) THEN NaNV
   ELSE LET a == R(x) b == R(y) IN
        IF ~SmallR(a) \/ ~SmallR(b) THEN OpenV ELSE
-       CASE op = "add" -> FromR(RAdd(a, b))
-         [] op = "sub" -> FromR(RSub(a, b))
-         [] op = "mul" -> FromR(RMul(a, b))
-         [] op = "div" -> IF b.n = 0 THEN NaNV ELSE FromR(RDiv(a, b))
-         [] op = "mod" -> IF b.n = 0 THEN NaNV ELSE FromR(RMod(a, b))
+       LET inx == Inexact(x) \/ Inexact(y) IN          \* an operation on rounded operands is rounded; so is one whose result is not dyadic (FromR)
+       CASE op = "add" -> MarkIf(inx, FromR(RAdd(a, b)))
+         [] op = "sub" -> MarkIf(inx, FromR(RSub(a, b)))
+         [] op = "mul" -> MarkIf(inx, FromR(RMul(a, b)))
+         [] op = "div" -> IF b.n = 0 THEN NaNV ELSE MarkIf(inx, FromR(RDiv(a, b)))
+         \* math.Mod jumps where the quotient is whole: on rounded operands the result is then anything in [0, |b|)
+         [] op = "mod" -> IF b.n = 0 THEN NaNV
+                          ELSE IF inx /\ (LET q == RDiv(a, b) IN q.d = 1 \/ Abs(Trunc(q)) > 1000) THEN OpenV
+                          ELSE MarkIf(inx, FromR(RMod(a, b)))
          [] op = "pow" -> IF b.d # 1 THEN OpenV                                   \* fractional exponents are outside the modelled domain
-                          ELSE IF b.n >= 0 THEN (LET p == RPowSafe(a, b.n) IN IF p.ok THEN FromR(p.r) ELSE OpenV)
+                          ELSE IF b.n >= 0 THEN (LET p == RPowSafe(a, b.n) IN IF p.ok THEN MarkIf(inx, FromR(p.r)) ELSE OpenV)
                           ELSE IF a.n = 0 THEN [k |-> "pinf", n |-> 0, d |-> 1]   \* 0 ^ negative
-                          ELSE (LET p == RPowSafe(a, 0 - b.n) IN IF p.ok THEN FromR(RDiv([n |-> 1, d |-> 1], p.r)) ELSE OpenV)
+                          ELSE (LET p == RPowSafe(a, 0 - b.n) IN IF p.ok THEN MarkIf(inx, FromR(RDiv([n |-> 1, d |-> 1], p.r))) ELSE OpenV)
 CmpOps == {"eq", "neq", "gt", "gte", "lt", "lte"}
 Holds(op, x, y) == IF ~IsRat(x) \/ ~IsRat(y) THEN op = "neq" ELSE RCmp(op, R(x), R(y))
+\* a comparison of equal values of which one is only known up to rounding can go either way
+Undet(x, y) == IsRat(x) /\ IsRat(y) /\ (Inexact(x) \/ Inexact(y)) /\ R(x) = R(y)
 IsOpen(x) == x.k = "open"
 NumLt(x, y) == IsRat(x) /\ IsRat(y) /\ RLt(R(x), R(y))
 
@@ -80,17 +94,21 @@ Quantile(q, s) == LET srt == SortRats(s)
 
 \* value of a range function on the window's values; "sq" marks values that are compared through their square
 RangeValue(e, vals) ==
-  LET r == [n |-> e.range, d |-> 1] IN
+  LET r == [n |-> e.range, d |-> 1]
+      inx == \E i \in DOMAIN vals : ~Dyadic(vals[i].d)       \* some sample was rounded when its text was parsed
+      Ex(x) == MarkIf(inx, FromR(x))                          \* one correctly rounded operation on the samples
+      Ap(x) == Approx(FromR(x))                               \* computed incrementally (running mean, Welford, interpolation): rounded
+  IN
   CASE e.op = "count_over_time" -> [v |-> FromR([n |-> Len(vals), d |-> 1]), sq |-> FALSE]
-    [] e.op = "rate" -> [v |-> FromR(RDiv(IF e.unwrap.on THEN SumSeq(vals) ELSE [n |-> Len(vals), d |-> 1], r)), sq |-> FALSE]
-    [] e.op \in {"bytes_over_time", "sum_over_time"} -> [v |-> FromR(SumSeq(vals)), sq |-> FALSE]
-    [] e.op = "bytes_rate" -> [v |-> FromR(RDiv(SumSeq(vals), r)), sq |-> FALSE]
-    [] e.op = "avg_over_time" -> [v |-> FromR(AvgSeq(vals)), sq |-> FALSE]
+    [] e.op = "rate" -> [v |-> Ex(RDiv(IF e.unwrap.on THEN SumSeq(vals) ELSE [n |-> Len(vals), d |-> 1], r)), sq |-> FALSE]
+    [] e.op \in {"bytes_over_time", "sum_over_time"} -> [v |-> Ex(SumSeq(vals)), sq |-> FALSE]
+    [] e.op = "bytes_rate" -> [v |-> Ex(RDiv(SumSeq(vals), r)), sq |-> FALSE]
+    [] e.op = "avg_over_time" -> [v |-> Ap(AvgSeq(vals)), sq |-> FALSE]
     [] e.op = "min_over_time" -> [v |-> FromR(MinSeq(vals)), sq |-> FALSE]
     [] e.op = "max_over_time" -> [v |-> FromR(MaxSeq(vals)), sq |-> FALSE]
-    [] e.op = "stdvar_over_time" -> [v |-> FromR(VarSeq(vals)), sq |-> FALSE]
-    [] e.op = "stddev_over_time" -> [v |-> FromR(VarSeq(vals)), sq |-> TRUE]
-    [] e.op = "quantile_over_time" -> [v |-> FromR(Quantile([n |-> e.param[1], d |-> e.param[2]], vals)), sq |-> FALSE]
+    [] e.op = "stdvar_over_time" -> [v |-> Ap(VarSeq(vals)), sq |-> FALSE]
+    [] e.op = "stddev_over_time" -> [v |-> Ap(VarSeq(vals)), sq |-> TRUE]
+    [] e.op = "quantile_over_time" -> [v |-> Ap(Quantile([n |-> e.param[1], d |-> e.param[2]], vals)), sq |-> FALSE]
     [] e.op = "first_over_time" -> [v |-> FromR(vals[1]), sq |-> FALSE]
     [] e.op = "last_over_time" -> [v |-> FromR(vals[Len(vals)]), sq |-> FALSE]
 
@@ -131,14 +149,18 @@ RangeAt(e, ents, T) ==
 RECURSIVE SetToSeqV(_)
 SetToSeqV(S) == IF S = {} THEN <<>> ELSE LET x == CHOOSE x \in S : TRUE IN <<x>> \o SetToSeqV(S \ {x})
 AggValue(op, members) ==
-  LET vals == [i \in DOMAIN members |-> R(members[i].v)] IN
-  CASE op = "sum" -> [v |-> FromR(SumSeq(vals)), sq |-> FALSE]
-    [] op = "avg" -> [v |-> FromR(AvgSeq(vals)), sq |-> FALSE]
-    [] op = "min" -> [v |-> FromR(MinSeq(vals)), sq |-> FALSE]
-    [] op = "max" -> [v |-> FromR(MaxSeq(vals)), sq |-> FALSE]
+  LET vals == [i \in DOMAIN members |-> R(members[i].v)]
+      inx == \E i \in DOMAIN members : Inexact(members[i].v)
+      Ex(x) == MarkIf(inx, FromR(x))
+      Ap(x) == Approx(FromR(x))
+  IN
+  CASE op = "sum" -> [v |-> Ex(SumSeq(vals)), sq |-> FALSE]
+    [] op = "avg" -> [v |-> Ap(AvgSeq(vals)), sq |-> FALSE]
+    [] op = "min" -> [v |-> Ex(MinSeq(vals)), sq |-> FALSE]
+    [] op = "max" -> [v |-> Ex(MaxSeq(vals)), sq |-> FALSE]
     [] op = "count" -> [v |-> FromR([n |-> Len(vals), d |-> 1]), sq |-> FALSE]
-    [] op = "stdvar" -> [v |-> FromR(VarSeq(vals)), sq |-> FALSE]
-    [] op = "stddev" -> [v |-> FromR(VarSeq(vals)), sq |-> TRUE]
+    [] op = "stdvar" -> [v |-> Ap(VarSeq(vals)), sq |-> FALSE]
+    [] op = "stddev" -> [v |-> Ap(VarSeq(vals)), sq |-> TRUE]
 VecAgg(op, grp, V) ==
   LET keys == {RetainedVec(grp, s.L) : s \in V} IN
   {LET a == AggValue(op, SetToSeqV({s \in V : RetainedVec(grp, s.L) = key})) IN [L |-> key, v |-> a.v, sq |-> a.sq] : key \in keys}
@@ -172,8 +194,9 @@ EvalTop(e, ents, T) ==
                       ELSE IF e.b.t = "lit" THEN {[L |-> s.L, x |-> s.v, y |-> LitV(e.b.v)] : s \in Eval(e.a, ents, T)}
                       ELSE LET A == Eval(e.a, ents, T) B == Eval(e.b, ents, T) IN
                            {[L |-> a.L, x |-> a.v, y |-> (CHOOSE b \in B : b.L = a.L).v] : a \in {a \in A : \E b \in B : b.L = a.L}}
-         IN [must |-> {[L |-> p.L, v |-> One, sq |-> FALSE] : p \in {p \in pairs : Holds(e.op, p.x, p.y)}},
-             may |-> {[L |-> p.L, v |-> Zero, sq |-> FALSE] : p \in {p \in pairs : ~Holds(e.op, p.x, p.y)}}, count |-> 0 - 1]
+         IN [must |-> {[L |-> p.L, v |-> One, sq |-> FALSE] : p \in {p \in pairs : Holds(e.op, p.x, p.y) /\ ~Undet(p.x, p.y)}},
+             may |-> {[L |-> p.L, v |-> Zero, sq |-> FALSE] : p \in {p \in pairs : ~Holds(e.op, p.x, p.y) \/ Undet(p.x, p.y)}}
+                     \cup {[L |-> p.L, v |-> One, sq |-> FALSE] : p \in {p \in pairs : Undet(p.x, p.y)}}, count |-> 0 - 1]
   ELSE IF e.t = "vecagg" /\ e.op \in {"topk", "bottomk"}
     THEN LET V == Eval(e.e, ents, T)
              Better(a, b) == IF e.op = "topk" THEN NumLt(b.v, a.v) ELSE NumLt(a.v, b.v)
